@@ -54,6 +54,7 @@ var c16Bodies = []string{
 const c16Prelude = "gv := 3\ngs := \"g\"\nfunc fvoid() {\n\tprint(\"v\")\n}\nfunc fint(a int) int {\n\tif a > 1 {\n\t\treturn a\n\t}\n\tfor i := 0; i < 2; i++ {\n\t\tif i == a {\n\t\t\treturn i\n\t\t}\n\t}\n\treturn 0\n}\nfunc fmulti(a int) (int, string) {\n\treturn a + 1, \"m\"\n}\nfunc fempty() {\n}\nfunc fexpr() {\n\tgv\n\ttrue\n}\n"
 
 type wfOutcome struct {
+	Files  map[string]string // all files of a multi-file program (nil: the program is Src alone)
 	Kind   string
 	Src    string
 	Bash   string
@@ -183,7 +184,14 @@ func isNum(s string) bool {
 	return true
 }
 
+var hashPrefixRe = regexp.MustCompile(`i[0-9a-f]{7}_`)
+var digitsRe = regexp.MustCompile(`[0-9]+`)
+
 func generalizeLabel(l string) string {
+	if hashPrefixRe.MatchString(l) {
+		// labels of imported files: the content hash and counters are not part of the class
+		return digitsRe.ReplaceAllString(hashPrefixRe.ReplaceAllString(l, "i<hash>_"), "N")
+	}
 	for _, p := range []string{"_e", "_f", "_i"} {
 		if strings.HasPrefix(l, p) && isNum(l[len(p):]) {
 			return p + "N"
@@ -347,6 +355,64 @@ func CheckC16(r *Run) int {
 		}})
 		r.Absorb(fmt.Sprintf("H_C16_constructs(slots=%d,all-nested-bodies=%v)", slots, fullBodies), st, fmt.Sprintf("%d statement slots, each filled by choice from %d constructs of the whole language (every builtin, empty blocks, nested loops with break/continue, functions); nested body slots from %d bodies (all of them: %v); both targets", slots, len(c16Menu), len(c16Bodies), fullBodies))
 	}
+	// multi-file programs: generated acyclic import graphs (the generator of C09), both targets
+	nGraphs := 30
+	if !quick {
+		nGraphs = 400
+	}
+	st := r.Eng.Explore(func(c *gosym.Ctx) interface{} {
+		mountStd(c)
+		k := c.Choose("graph", 0, nGraphs-1)
+		shp := genModuleShape(r.Seed*1000 + int64(k))
+		c.FS.HashOverride = nil // real digests: the scripts are inspected as emitted
+		files := map[string]string{}
+		for pth, mp := range shp.Mods(c) {
+			files[pth] = concretizeMarkers(strings.ReplaceAll(oracle.Render(mp).String(), "HASHCLASS:", "graph "))
+		}
+		src := concretizeMarkers(oracle.Render(shp.Prog(c)).String())
+		files["main.tsh"] = src
+		for pth, content := range files {
+			c.FS.AddFile("/work/"+pth, gosym.Conc(content))
+		}
+		o := wfOutcome{Kind: "ok", Src: src, Files: files}
+		for _, target := range []string{"bash", "batch"} {
+			var script, errText gosym.Str
+			var hasErr bool
+			gp := c.Try(func() { script, errText, hasErr = c.Transpile("/work/main.tsh", target) })
+			if gp != nil || hasErr {
+				o.Kind = "rejected"
+				o.Issues = append(o.Issues, "generator-program-rejected:"+target+":"+errText.String())
+				return o
+			}
+			text, _ := script.Go()
+			if target == "bash" {
+				o.Bash = text
+				if ok, msg := bashSyntaxOK(text); !ok {
+					o.Issues = append(o.Issues, "bash-syntax:bash -n: "+strings.TrimSpace(msg))
+				}
+			} else {
+				o.Batch = text
+				for _, is := range analyzeBatch(text) {
+					o.Issues = append(o.Issues, "batch:"+is)
+				}
+			}
+		}
+		if len(o.Issues) > 0 {
+			o.Kind = "bad"
+		}
+		return o
+	}, gosym.ExploreOpts{Workers: r.Workers, TimeoutMS: 10000, Budget: gosym.Budget{MaxPaths: 100000, Steps: 30_000_000}, OnPath: func(pr *gosym.PathResult) {
+		o, ok := pr.Ret.(wfOutcome)
+		if !ok {
+			return
+		}
+		if o.Kind == "ok" {
+			okN++
+		} else {
+			outcomes = append(outcomes, o)
+		}
+	}})
+	r.Absorb("H_C16_import_graphs", st, fmt.Sprintf("%d generated acyclic import graphs of 2..4 files (globals, private helpers, cross-file calls, top-level code, diamonds), both targets: `bash -n` and the Batch structural invariants", nGraphs))
 	// deterministic order, then confirm natively
 	sort.SliceStable(outcomes, func(i, j int) bool { return outcomes[i].Src < outcomes[j].Src })
 	validated := 0
@@ -378,9 +444,13 @@ func CheckC16(r *Run) int {
 			}
 			seen[class] = true
 			// native confirmation of the issue on the real build's output
+			nfiles := map[string]string{"main.tsh": o.Src}
+			if o.Files != nil {
+				nfiles = o.Files
+			}
 			res, err := nat.RunDrv([]DrvReq{
-				{Op: "transpile", Files: map[string]string{"main.tsh": o.Src}, Main: "main.tsh", Target: "bash"},
-				{Op: "transpile", Files: map[string]string{"main.tsh": o.Src}, Main: "main.tsh", Target: "batch"},
+				{Op: "transpile", Files: nfiles, Main: "main.tsh", Target: "bash"},
+				{Op: "transpile", Files: nfiles, Main: "main.tsh", Target: "batch"},
 			}, 30*time.Second)
 			validated++
 			confirmed := false
@@ -406,11 +476,11 @@ func CheckC16(r *Run) int {
 				continue
 			}
 			if r.IsKnown(class) {
-				r.HitKnown(class, firstLines(o.Src[len(c16Prelude):], 6))
+				r.HitKnown(class, firstLines(afterPrelude(o.Src), 6))
 				continue
 			}
 			rd := r.WriteReplay(class, map[string]string{"main.tsh": o.Src, "main.sh": o.Bash, "main.bat": o.Batch, "finding.txt": "property C16\n" + what + "\n"})
-			r.AddViolation(Violation{Class: class, What: what + " | program tail: " + firstLines(o.Src[len(c16Prelude):], 8), Replay: rd})
+			r.AddViolation(Violation{Class: class, What: what + " | program tail: " + firstLines(afterPrelude(o.Src), 8), Replay: rd})
 		}
 	}
 	r.Cov("states", okN+len(seen))
@@ -440,4 +510,12 @@ func normBashMsg(s string) string {
 		s = s[:i]
 	}
 	return s
+}
+
+// afterPrelude is the part of a generated single-file program after the common prelude (whole text for other programs).
+func afterPrelude(src string) string {
+	if strings.HasPrefix(src, c16Prelude) {
+		return src[len(c16Prelude):]
+	}
+	return src
 }
